@@ -200,8 +200,46 @@ def edited_helper(res):
     return n
 
 
+DUPLICATE_LINES = ("from nada_dsl import *\n\n\ndef nada_main():\n    p = Party(name='P')\n    a = SecretInteger(Input(name='a', party=p))\n    acc = a\n"
+                   "    acc = acc + a\n    acc = acc + a\n    t = acc < a + a\n    t = acc < a\n    acc = acc + a\n"
+                   "    return [Output(acc, 'o', p), Output(t, 'q', p)]\n")
+
+
+def duplicate_lines(res):
+    """statements whose text equals, or begins, an earlier line of the file (an unrolled accumulation): each element is
+    designated at its own line's position"""
+    import json
+    import os
+    import shutil
+    import subprocess
+    import sys
+    import tempfile
+    from ..oracle import srcref
+    tmp = tempfile.mkdtemp(prefix="nvc19dl")
+    try:
+        path = os.path.join(tmp, "main.py")
+        with open(path, "w", encoding="utf-8") as f:
+            f.write(DUPLICATE_LINES)
+        env = dict(os.environ, PYTHONPATH=core.REPO + os.pathsep + os.path.join(core.VERIF, "harness"), PYTHONDONTWRITEBYTECODE="1")
+        p = subprocess.run([sys.executable, "-m", "nv.real.fresh_hist", "script", path], cwd=tmp, env=env, capture_output=True, text=True, timeout=120)
+        try:
+            out = json.loads(p.stdout)[0]
+        except (ValueError, IndexError):
+            raise core.Infra(f"fresh_hist failed: {(p.stderr or p.stdout)[-300:]}")
+        if "mir" not in out:
+            res.violation({"property": "C19", "kind": "duplicate-lines", "text": str(out.get("msg"))}, f"program with repeated lines does not compile: {out.get('msg')}")
+            return 0
+        lines_of_additions = sorted(r["lineno"] for i, r in enumerate(out["mir"].get("source_refs", [])) if r.get("file") == "main.py")
+        for kind, t in srcref.check(out["mir"], {"main.py": DUPLICATE_LINES}, {}, {})[:2]:
+            res.violation({"property": "C19", "kind": "duplicate-lines", "check": kind, "text": t, "source": DUPLICATE_LINES}, f"program with repeated lines: {t}"[:400])
+        return len(lines_of_additions)
+    finally:
+        shutil.rmtree(tmp, ignore_errors=True)
+
+
 def run(res, tier):
     nedited = edited_helper(res)
+    ndup = duplicate_lines(res)
     evals, nontrivial = 0, set()
     samples = []
     # 1. the entry-point catalogue (also what T4 turned into the FrameTable)
